@@ -408,7 +408,7 @@ def s_msg(draw, types=None):
         return {'type': t, 'block': dict(draw(gen.header_model()), txs=[draw(gen.tx_model(max_in=2, max_out=2, big=False)) for _ in range(draw(st.integers(0, 3)))])}
     if t in ('ping', 'pong'):
         return {'type': t, 'nonce': draw(gen.u64)}
-    return {'type': 'reject', 'message': draw(hx(st.binary(max_size=12))), 'ccode': draw(hx(st.binary(min_size=1, max_size=1))), 'reason': draw(small_blob)}
+    return {'type': 'reject', 'message': draw(st.one_of(hx(st.binary(max_size=12)), st.sampled_from([b'tx', b'block', b'version', b'', b'headers', b'alert']).map(bytes.hex))), 'ccode': draw(hx(st.binary(min_size=1, max_size=1))), 'reason': draw(small_blob)}
 
 
 @st.composite
